@@ -10,6 +10,10 @@ CP_PRE = [
 # with conversion on, the five trigger characters are excluded (C11 covers them)
 CONV_PRE = ["(not conv) or cp not in (94, 95, 62, 60, 61)"]
 
+DECOMPOSABLE = (0xB2, 0xB3, 0xB9, 0xBC, 0xBD, 0xBE, 0xAA, 0xBA, 0x2070, 0x2074, 0x2079, 0x2080, 0x2089, 0x2126, 0x212A, 0x212B,
+                0x037E, 0x1FEF, 0x2460, 0x2468, 0xFB01, 0xFB03, 0xFF11, 0xFF19, 0xFF21, 0x1D7CE, 0x1D7D7, 0x1D400, 0xF900,
+                0xFA0E, 0x2F800, 0x0301, 0x0308, 0x0303, 0x0327, 0x3099, 0x1100, 0x2160, 0x00A0, 0x2002)
+
 HDR = r'''
 from vf.hlib import NS, holes_reset, decodes_to, tpl
 import rtflite.row as row
@@ -58,6 +62,25 @@ def build(tier, seed):
         what="escape layer output is 7-bit ASCII and decodes (\\ucN/\\uN signed 16 bit, surrogate pairs, "
              "exact fallback count) to the input character",
     ))
+    # O1b: code points with canonical/compatibility decompositions.  On the unchanged kernel this is confirmed
+    # symbolically like O1; if the code under test routes characters through a C-level Unicode table (unicodedata),
+    # CrossHair realises the character and this small set is enumerated by the solver value by value.
+    for tag, body_text, exp in (("single", "chr(cp)", "[cp]"), ("mid", "'a' + chr(cp) + 'b'", "[97, cp, 98]"),
+                                ("after_base", "'e' + chr(cp)", "[101, cp]")):
+        obs.append(Ob(
+            oid="O1b.decomposable." + tag, sig="cp: int, conv: bool", pre=["cp in %r" % (DECOMPOSABLE,)], templates=True, timeout=T,
+            header=HDR + "def api(cp, conv):\n    return api_position('cell', cp, conv, 'mid')\n", api=True,
+            body=r'''
+    holes_reset()
+    out = TextContent._convert_special_chars(NS(text=%s, convert=conv))
+    return decodes_to(out, %s)
+''' % (body_text, exp),
+            funcs=["rtflite.row:TextContent._convert_special_chars", "rtflite.text_conversion.converter:TextConverter.convert_latex_to_unicode"],
+            bounds="cp in a fixed set of %d code points that have canonical or compatibility decompositions / compose with a "
+                   "preceding base letter (superscripts, fractions, Angstrom/Ohm/Kelvin signs, ligatures, full-width and "
+                   "mathematical digits, CJK compatibility ideographs, combining marks); text %s" % (len(DECOMPOSABLE), body_text),
+            what="characters that Unicode normalisation would alter are still decoded as themselves",
+        ))
     # O2: boundary positions in a three-character text
     for pos, tmpl, exp in (("start", "chr(cp) + 'ab'", "[cp, 97, 98]"), ("mid", "'a' + chr(cp) + 'b'", "[97, cp, 98]"),
                            ("end", "'ab' + chr(cp)", "[97, 98, cp]")):
